@@ -91,6 +91,21 @@ func c12Scenarios(tier string) []Scenario {
 			}
 		}
 	}
+	// another client with another configuration exists in the process: a client's schedule is its own
+	for _, v6 := range []bool{false, true} {
+		for _, T := range []int64{1, 10} {
+			for n := 1; n <= 3; n++ {
+				for _, good := range []bool{false, true} {
+					s := &ClientScenario{V6: v6, T: T, Tries: n, BufCap: -1, CloseAt: -1, Bound: 0, Decoy: true,
+						Calls: []CallSpec{{ID: 0, Match: MatchGood, CancelAt: -1, After: -1}}}
+					if good {
+						s.Dgs = []DgSpec{{At: T*((int64(1)<<uint(n-1))-1) + T/2, Kind: DgGood, ID: 0}}
+					}
+					add(s, "other-client-in-process")
+				}
+			}
+		}
+	}
 	// several calls on the same client: the schedule of a call must not depend on earlier calls
 	for _, v6 := range []bool{false, true} {
 		for _, T := range []int64{1, 10} {
